@@ -33,6 +33,7 @@ type conn struct {
 	onClose  func(net.Conn)
 	once     sync.Once
 	cancel   context.CancelFunc
+	closed   error
 }
 
 // ErrClosed represents a error.
@@ -70,17 +71,21 @@ func newConn(ctx context.Context, onConnect func(net.Conn) net.Conn, onClose fun
 
 // store registers resultChan under the next index that no pending request is using.
 // The index has only 15 bits, so the counter comes round while slow requests are still pending.
-func (c *conn) store(resultChan chan data) (index int, ok bool) {
+// It fails when the connection has been closed: nobody would answer the request.
+func (c *conn) store(resultChan chan data) (index int, err error) {
 	c.lock.Lock()
 	defer c.lock.Unlock()
+	if c.closed != nil {
+		return 0, c.closed
+	}
 	for i := 0; i <= 0x7fff; i++ {
 		index = int(atomic.AddInt32(&c.counter, 1) & 0x7fff)
 		if _, pending := c.results[index]; !pending {
 			c.results[index] = resultChan
-			return index, true
+			return index, nil
 		}
 	}
-	return 0, false
+	return 0, ErrTooManyRequests
 }
 
 func (c *conn) delete(index int) {
@@ -119,9 +124,9 @@ func (c *conn) Transport(ctx context.Context, request []byte) (response []byte, 
 	}
 	resultChan := make(chan data, 1)
 	verifPoint("transport.beforeStore")
-	index, ok := c.store(resultChan)
-	if !ok {
-		return nil, ErrTooManyRequests
+	index, err := c.store(resultChan)
+	if err != nil {
+		return nil, err
 	}
 	verifPoint("transport.afterStore")
 	select {
@@ -244,6 +249,13 @@ func (c *conn) Close(err error) {
 			c.cancel()
 		}
 	})
+	c.lock.Lock()
+	if c.closed == nil {
+		if c.closed = err; err == nil {
+			c.closed = ErrClosed
+		}
+	}
+	c.lock.Unlock()
 	verifPoint("close.beforeClean")
 	c.rangeAndClean(func(index int, resultChan chan data) {
 		resultChan <- data{
